@@ -44,6 +44,10 @@ R10i nothing that Stop cancels stays open: every path on which that part of _can
      Cancelled has taken the true outcome of the conclusive-state predicate on the request's instance id (it has its final state) or of
      the shared-instance-id test (another executing request carries the invocation, C15 R15i) - "its command has started and is gone"
      is not such a reason: the instance may have been taken away under the name by the request handled just before.
+R10j a UOD command line that was reached but not requested yet is concluded when the run ends: the interpreter creates the invocation
+     one tick before the visitor issues the command request, and the run-log generator shows a Created-only invocation as started.
+     cancel_commands(finalize=True) - the sweep Stop and Restart run in their closing segment - calls a Tracking method that records
+     Cancelled for every UodCommandNode whose latest invocation has nothing but Created (it tests has_unstarted_invocation).
 """
 from __future__ import annotations
 
@@ -363,6 +367,29 @@ def run(ctx) -> None:
                  "should be cancelled but these are still not finalized'): user saves the method while `LongA` runs (the merge replaces the "
                  "CommandManager and its executing list) and stops within three ticks - Stop completes, uod.command_instances still holds "
                  "LongA, its finalize function never ran, and the next run's LongA continues the stale instance")
+    # ---- R10j
+    ctx.rule("R10j", "the sweep at run end concludes uod command invocations that were created but never requested")
+    trk = prog.cls("openpectus.lang.exec.tracking:Tracking")
+    gcc_ = cfg_of(ccm)
+    sweepers = []
+    for n in gcc_.nodes:
+        for c in n.calls():
+            m_ = trk.methods.get(call_attr(c) or "")
+            if m_ is None or "tracking" not in norm(c.func):
+                continue
+            body_txt = norm(m_.node)
+            if "Cancelled" in body_txt and ("has_unstarted_invocation" in body_txt or "Created" in body_txt) and "UodCommandNode" in body_txt \
+                    and any(isinstance(x, ast.For) for x in ast.walk(m_.node)):
+                if any("finalize" in norm(e) and pol for e, pol in gcc_.conditions_at(n)) or not gcc_.conditions_at(n):
+                    sweepers.append((n, m_))
+    inst = "cancel_commands(finalize=True): unstarted invocations of uod command lines are recorded Cancelled"
+    if sweepers:
+        ctx.analysed(sweepers[0][1])
+        ctx.ok("R10j", inst, {"rule": "R10j", "sweeper": sweepers[0][1].short})
+    else:
+        ctx.fail("R10j", ccm, ccm.node, inst, "Stop or Restart landing in the tick in which the interpreter first visits a uod command line: the "
+                 "invocation exists (Created) but no request and no instance, so neither the cancel pass nor the instance sweep sees it - the run "
+                 "log of the run-stopped message shows the command started, with no end, not cancelled, not failed")
     # ---- R10h
     ctx.rule("R10h", "the concluded-invocation gate finalizes the command its request has started")
     from ..cmdgate import concluded_gate, is_conclusive_predicate
